@@ -100,7 +100,7 @@ def sev(e):
         return "SR"
     if op == "m":
         return "SM"
-    if op == "n":
+    if op in ("n", "g"):   # g: graceful stop during the hand-over; the unchanged driver never acknowledges, same model step
         return "SN %s %s" % (cbool(e.get("err", False)), n(e.get("errat", 0)))
     if op == "x":   # witness-only schedule (harness/c06 raceTick); the model has no such step: plain tick
         return "ST false 0"
@@ -168,9 +168,9 @@ def distribution(outs):
         d["events"] += len(sc)
         vs = [i["w0"]["v"]] + [e["v"] for e in sc if e["op"] == "w"]
         d["forks_scripted"] += sum(1 for a, b in zip(vs, vs[1:]) if a != b)
-        nr = sum(1 for e in sc if e["op"] in ("r", "m", "n"))
+        nr = sum(1 for e in sc if e["op"] in ("r", "m", "n", "g"))
         d["restarts_scripted"] += nr
-        d["stops_during_reorg_handover_scripted"] += sum(1 for e in sc if e["op"] == "n")
+        d["stops_during_reorg_handover_scripted"] += sum(1 for e in sc if e["op"] in ("n", "g"))
         d["polls"] += sum(1 for e in sc if e["op"] == "p")
         d["ticks"] += sum(1 for e in sc if e["op"] == "t")
         d["ticks_with_rpc_failure"] += sum(1 for e in sc if e["op"] == "t" and (e.get("err") or e.get("errat")))
